@@ -75,9 +75,15 @@ func rulesC16(r *Run) {
 
 	// R8: a plan rejected by storage leaves no trace (same constructs as C14-R1/R2, create scope only)
 	r.Kind("R8", "K6")
-	ruleTransactionScope(r, "R8", sqlKey("commitPlan"))
-	for _, s := range []string{"commitPlan", "commitChecks", "commitBlock", "commitSequence", "commitAction", "creator.Create"} {
-		if fn := r.fnByKey("R8", sqlKey(s)); fn != nil {
+	createScope := sqliteCreateScope(r)
+	for _, k := range createScope {
+		if fn := r.P.Funcs[k]; fn != nil && registersTransaction(fn) {
+			ruleTransactionScope(r, "R8", k, createScope)
+		}
+	}
+	for _, k := range createScope {
+		if fn := r.P.Funcs[k]; fn != nil && hasErrorResult(fn) && executesOrCreates(r, k) {
+			r.Funcs[k] = true
 			errorDiscipline(r, "R8", fn)
 		}
 	}
